@@ -330,25 +330,28 @@ Step(e) ==
     [] e.op = "rt1" -> TRt1(e)
     [] e.op \in {"rt2", "rt2t"} -> TRt2(e)
     [] e.op = "twin" -> TTwin(e)
+    \* the process received a signal while executing a step of a history whose operands are all in the domain
+    [] e.op = "crash" -> Res(F1("C07.crash", "signal " \o ToString(e.sig) \o " in step: " \o e.step, "no crash"), heap, "-")
     [] OTHER -> Res(Tool("unknown_op"), heap, "-")
 
 \* operands that an earlier (already reported) step left non-finite / ill-formed: the step is skipped
 RefIds(e) == {Id(e[f]) : f \in {"src", "x", "y", "id"} \cap DOMAIN e}
-IllFormedOperand(e) == e.op # "begin" /\ \E k \in RefIds(e) \cap DOMAIN heap : ~WellFormed(heap[k])
+NoObs(e) == e.op \in {"begin", "crash"}
+IllFormedOperand(e) == ~NoObs(e) /\ \E k \in RefIds(e) \cap DOMAIN heap : ~WellFormed(heap[k])
 Creates(e) == e.op \in {"construct", "copy", "cast", "rplus"}
 ExpectedLive(e) == (DOMAIN heap) \cup (IF Creates(e) THEN {Id(e.dst)} ELSE {})
 
 \* frame condition: after the step every live object is bit for bit what the heap says
 \* (the destination of rplus / construct / mutate included: the harness logged that value)
 Frame(e, h) ==
-  IF e.op = "begin" THEN <<>>
+  IF NoObs(e) THEN <<>>
   ELSE IF DOMAIN e.obs # ExpectedLive(e) THEN Tool("live_set")
   ELSE LET ids == DOMAIN h
            badIds == {k \in ids : ~(WellFormed(e.obs[k]) /\ SameV(e.obs[k], h[k]))}
        IN IF badIds = {} THEN <<>>
           ELSE F1("C07.copy.indep", "objects changed by a step that must not touch them: " \o ToString(badIds), "unchanged")
 \* objects the step's verdict did not place in the heap (failed creations) are adopted as observed
-Adopt(e, h) == IF e.op = "begin" THEN <<>> ELSE [k \in DOMAIN e.obs |-> IF k \in DOMAIN h THEN h[k] ELSE e.obs[k]]
+Adopt(e, h) == IF NoObs(e) THEN h ELSE [k \in DOMAIN e.obs |-> IF k \in DOMAIN h THEN h[k] ELSE e.obs[k]]
 
 ---------------------------------------------------------------------------
 Init == l = 1 /\ heap = <<>> /\ bad = <<>> /\ cov = <<>>
